@@ -48,3 +48,11 @@ pub fn parse(x: &X) -> X {
         Err(_) => X::L(vec![X::N(416)]),
     }
 }
+
+pub fn dispatch(comp: &str, x: &X) -> Option<X> {
+    Some(match comp {
+        "range.serve" => serve(x),
+        "range.parse" => parse(x),
+        _ => return None,
+    })
+}
